@@ -12,8 +12,9 @@ Definition script_no_ge (s : list input) : bool := forallb input_no_ge s.
 Section PMId.
   Context {P : Type}.
   Variable resume : P -> input -> outcome P.
+  Variable fixed : bool.          (* with or without the C21-a repair: irrelevant for the identity processor *)
 
-  Notation pml := (pm_lresume resume (@id_proc P)).
+  Notation pml := (pm_lresume resume (@id_proc P) fixed).
   Notation pmst := (@pm_state P unit).
   Notation pmrun := (@pm_run P unit).
 
@@ -34,7 +35,7 @@ Section PMId.
   Lemma pm_iter_send :
     forall p seen rv retv nid ps v fuel,
       let st := mkPM seen [(0, EPlan p)] [v] [] [] None rv retv nid ps in
-      let r := pm_loop resume (@id_proc P) (S fuel) st [] in
+      let r := pm_loop resume (@id_proc P) fixed (S fuel) st [] in
       snd r = [Call 0 (Send v)] /\ lifts (resume p (Send v)) (fst r).
   Proof.
     intros p seen rv retv nid ps v fuel. cbn -[mem_nat].
@@ -50,7 +51,7 @@ Section PMId.
   Lemma pm_iter_throw :
     forall p seen rv retv nid ps e fuel,
       let st := mkPM seen [(0, EPlan p)] [] [] [] (Some e) rv retv nid ps in
-      let r := pm_loop resume (@id_proc P) (S fuel) st [] in
+      let r := pm_loop resume (@id_proc P) fixed (S fuel) st [] in
       snd r = [Call 0 (Throw e)] /\ lifts (resume p (Throw e)) (fst r).
   Proof.
     intros p seen rv retv nid ps e fuel. cbn -[mem_nat].
@@ -58,7 +59,7 @@ Section PMId.
     - unfold process_msg, set_top. cbn -[mem_nat]. destruct (mem_nat m seen) eqn:M; cbn.
       + split; [reflexivity|]. eexists; split; [reflexivity|]. repeat split.
       + split; [reflexivity|]. eexists; split; [reflexivity|]. repeat split.
-    - split; reflexivity.
+    - destruct fixed; split; reflexivity.
     - destruct (is_Exception e'); cbn; split; reflexivity.
     - split; reflexivity.
   Qed.
@@ -162,8 +163,8 @@ Section PMId.
     intros p s fuel HS. cbn [ltrace].
     destruct (pm_iter_send p [] VNone VNone 1 tt VNone fuel) as [Hc Hl]. cbn zeta in Hc, Hl.
     change (pml (S fuel) (pm_init p tt) (Send VNone))
-      with (pm_loop resume (@id_proc P) (S fuel) (mkPM [] [(0, EPlan p)] [VNone] [] [] None VNone VNone 1 tt) []).
-    set (r := pm_loop resume id_proc (S fuel) _ []) in *.
+      with (pm_loop resume (@id_proc P) fixed (S fuel) (mkPM [] [(0, EPlan p)] [VNone] [] [] None VNone VNone 1 tt) []).
+    set (r := pm_loop resume id_proc fixed (S fuel) _ []) in *.
     rewrite Hc. unfold ideal at 1 2 3. cbn [fst snd].
     destruct (resume p (Send VNone)) as [m' p'|v'|e'|] eqn:E; cbv [lifts] in Hl.
     - destruct Hl as (st' & Ho & I'). rewrite Ho. f_equal. now apply pm_ltrace_run.
@@ -175,7 +176,7 @@ Section PMId.
   (* every script, from the just-created wrapper, for a just-created plan: same observations *)
   Theorem pm_transparent :
     forall p s fuel, unstarted resume p -> script_exc_only s = true ->
-      trace (pm_resume resume (@id_proc P) (S fuel)) (pm_init p tt) s = trace resume p s.
+      trace (pm_resume resume (@id_proc P) fixed (S fuel)) (pm_init p tt) s = trace resume p s.
   Proof.
     intros p s fuel (Ht & Hs & (eg & Hc & Hg)) HS.
     destruct s as [|i s]; [reflexivity|].
@@ -305,15 +306,15 @@ Lemma not_finding_exc_only : forall s, ~ finding_C20_a s -> script_exc_only s = 
 Proof. unfold finding_C20_a, finding_C20_a_b. intros s H. destruct (script_exc_only s); [reflexivity|]. now elim H. Qed.
 
 Lemma pm_transparent_nf :
-  forall (P : Type) (resume : P -> input -> outcome P) (p : P) (s : list input) (fuel : nat),
+  forall (P : Type) (resume : P -> input -> outcome P) (fixed : bool) (p : P) (s : list input) (fuel : nat),
     unstarted resume p -> ~ finding_C20_a s ->
-    trace (pm_resume resume id_proc (S fuel)) (pm_init p tt) s = trace resume p s.
+    trace (pm_resume resume id_proc fixed (S fuel)) (pm_init p tt) s = trace resume p s.
 Proof. intros. apply pm_transparent; auto using not_finding_exc_only. Qed.
 
 Lemma pm_transparent_started_nf :
-  forall (P : Type) (resume : P -> input -> outcome P) (p : P) (s : list input) (fuel : nat),
+  forall (P : Type) (resume : P -> input -> outcome P) (fixed : bool) (p : P) (s : list input) (fuel : nat),
     ~ finding_C20_a s ->
-    ltrace (pm_lresume resume id_proc (S fuel)) (pm_init p tt) (Send VNone :: s)
+    ltrace (pm_lresume resume id_proc fixed (S fuel)) (pm_init p tt) (Send VNone :: s)
     = ltrace (ideal resume) p (Send VNone :: s).
 Proof. intros. apply pm_transparent_started; auto using not_finding_exc_only. Qed.
 
